@@ -10,9 +10,11 @@ import (
 	"fmt"
 	"os"
 	"path/filepath"
+	"runtime"
 	"sort"
 	"strconv"
 	"strings"
+	"syscall"
 	"time"
 
 	"go.miragespace.co/specter/kv/aof"
@@ -23,6 +25,16 @@ import (
 )
 
 var ctx = context.Background()
+
+var failedOpens int
+
+func init() {
+	var lim syscall.Rlimit
+	if syscall.Getrlimit(syscall.RLIMIT_NOFILE, &lim) == nil {
+		lim.Cur = lim.Max
+		syscall.Setrlimit(syscall.RLIMIT_NOFILE, &lim)
+	}
+}
 
 // ---------- tokens ----------
 
@@ -291,6 +303,14 @@ func Recover(dir string, keys [][]byte) (res string) {
 	}()
 	kv, err := Open(dir)
 	if err != nil {
+		// aof.New does not close the WAL it opened when replay fails: the descriptor is released only
+		// by the os.File finalizer. Collect regularly so that thousands of failing images do not
+		// exhaust the descriptor table of the harness process.
+		failedOpens++
+		if failedOpens%100 == 0 {
+			runtime.GC()
+			time.Sleep(2 * time.Millisecond)
+		}
 		return "error"
 	}
 	res = Snapshot(kv, keys)
